@@ -610,7 +610,8 @@ func instloopStart(t *tr, en *packages.Package) string {
 	//      call (calls inside the function literal handed to reflect.MakeFunc; nested function literals — a sync.Once.Do,
 	//      a cached closure — are not entered, so a call moved into one is no longer "at every call")
 	var perCall []string
-	pl := instloopLoad("github.com/yandex/pandora/core/plugin")["github.com/yandex/pandora/core/plugin"]
+	more := instloopLoad("github.com/yandex/pandora/core/plugin", "github.com/yandex/pandora/core/coreutil")
+	pl := more["github.com/yandex/pandora/core/plugin"]
 	if fd := instloopFindMethod(pl, "pluginConstructor", "NewFactory"); fd != nil && len(fd.Recv.List[0].Names) == 1 {
 		w := &instloopW{t: t, pkg: pl, recv: fd.Recv.List[0].Names[0].Name}
 		var lit *ast.FuncLit
@@ -647,5 +648,121 @@ func instloopStart(t *tr, en *packages.Package) string {
 	}
 	b.WriteString("/-- regenerated from `core/plugin/constructor.go` `(*pluginConstructor).NewFactory`: of `getMaybeConf()` (decode the\nplugin's config from the configuration data) and `newPlugin.Call(…)` (the registered constructor), the ones the factory\nperforms at EVERY call (nested function literals not entered); sorted -/\n")
 	b.WriteString("def factoryPerCall : List String := " + q(perCall) + "\n\n")
+	b.WriteString(instloopCallback(t, more["github.com/yandex/pandora/core/coreutil"]))
+	return b.String()
+}
+
+// instloopCallback: core/coreutil/schedule.go, the wrapper the engine puts around the SHARED profile
+// (NewCallbackOnFinishSchedule): what its Left() / Next() return and when they fire the finish callback, as functions of
+// what the wrapped schedule answered.
+//
+//	V := s.Schedule.Left()  |  A, B = s.Schedule.Next()      the one call of the wrapped schedule (first statement)
+//	if COND { … }                                            COND over V / B and integer literals
+//	s.onFinishOnce.Do(s.onFinish)                            -> the callback has fired (once)
+//	return [E]                                               -> (E, fired)
+func instloopCallback(t *tr, cu *packages.Package) string {
+	var b strings.Builder
+	for _, m := range []string{"Left", "Next"} {
+		body := "(UNSUPPORTED)"
+		fd := instloopFindMethod(cu, "callbackOnFinishSchedule", m)
+		if fd == nil || len(fd.Recv.List[0].Names) != 1 || len(fd.Body.List) < 2 {
+			t.errs = append(t.errs, "method (*callbackOnFinishSchedule)."+m+" not found")
+		} else {
+			w := &instloopW{t: t, pkg: cu, recv: fd.Recv.List[0].Names[0].Name}
+			val := "" // the Go variable holding the inner answer the function looks at
+			if as, ok := fd.Body.List[0].(*ast.AssignStmt); ok && len(as.Rhs) == 1 && w.src(as.Rhs[0]) == w.recv+".Schedule."+m+"()" {
+				if m == "Left" && len(as.Lhs) == 1 {
+					val = w.src(as.Lhs[0])
+				}
+				if m == "Next" && len(as.Lhs) == 2 {
+					val = w.src(as.Lhs[1])
+				}
+			}
+			lean := map[string]string{"Left": "left", "Next": "ok"}[m]
+			var expr func(e ast.Expr) (string, bool)
+			expr = func(e ast.Expr) (string, bool) {
+				switch v := e.(type) {
+				case *ast.Ident:
+					if v.Name == val {
+						return lean, true
+					}
+				case *ast.BasicLit:
+					if v.Kind == token.INT {
+						return "(" + v.Value + " : Int)", true
+					}
+				case *ast.ParenExpr:
+					return expr(v.X)
+				case *ast.UnaryExpr:
+					if v.Op == token.NOT {
+						if x, ok := expr(v.X); ok {
+							return "(!" + x + ")", true
+						}
+					}
+				case *ast.BinaryExpr:
+					op := map[token.Token]string{token.EQL: "=", token.LEQ: "≤", token.LSS: "<", token.GEQ: "≥", token.GTR: ">", token.NEQ: "≠"}[v.Op]
+					l, lok := expr(v.X)
+					r, rok := expr(v.Y)
+					if op != "" && lok && rok {
+						return "decide (" + l + " " + op + " " + r + ")", true
+					}
+				}
+				return "", false
+			}
+			var tr func(list []ast.Stmt, fired bool) (string, bool)
+			tr = func(list []ast.Stmt, fired bool) (string, bool) {
+				if len(list) == 0 {
+					return "", false
+				}
+				switch v := list[0].(type) {
+				case *ast.IfStmt:
+					if v.Init != nil || v.Else != nil {
+						return "", false
+					}
+					c, ok := expr(v.Cond)
+					if !ok {
+						return "", false
+					}
+					th, ok1 := tr(append(append([]ast.Stmt{}, v.Body.List...), list[1:]...), fired)
+					el, ok2 := tr(list[1:], fired)
+					if !ok1 || !ok2 {
+						return "", false
+					}
+					return "(if " + c + " then " + th + " else " + el + ")", true
+				case *ast.ExprStmt:
+					if w.src(v.X) == w.recv+".onFinishOnce.Do("+w.recv+".onFinish)" {
+						return tr(list[1:], true)
+					}
+				case *ast.ReturnStmt:
+					ret := lean
+					if len(v.Results) == 1 && m == "Left" {
+						r, ok := expr(v.Results[0])
+						if !ok {
+							return "", false
+						}
+						ret = r
+					} else if len(v.Results) != 0 || m != "Next" {
+						return "", false
+					}
+					return "(" + ret + ", " + strconv.FormatBool(fired) + ")", true
+				}
+				return "", false
+			}
+			if val != "" {
+				if tx, ok := tr(fd.Body.List[1:], false); ok {
+					body = tx
+				}
+			}
+			if body == "(UNSUPPORTED)" {
+				w.fail(fd, "callbackOnFinishSchedule.%s shape", m)
+			}
+		}
+		if m == "Left" {
+			b.WriteString("/-- regenerated from `core/coreutil/schedule.go` `(*callbackOnFinishSchedule).Left` (the wrapper of the SHARED profile):\n(what it returns, whether it fires the finish callback) for the wrapped schedule's answer `left` -/\n")
+			b.WriteString("def callbackLeft (left : Int) : Int × Bool := " + body + "\n\n")
+		} else {
+			b.WriteString("/-- regenerated from `(*callbackOnFinishSchedule).Next`: (the `ok` it returns, whether it fires the finish callback) for the\nwrapped schedule's `ok`; the time is passed on -/\n")
+			b.WriteString("def callbackNext (ok : Bool) : Bool × Bool := " + body + "\n\n")
+		}
+	}
 	return b.String()
 }
